@@ -164,7 +164,26 @@ def pat_match(pat, names, ip):
         if net is not None:
             return ip is not None and ip.version == net.version and \
                 ip in net
+    lit = _ip(pat)
+    if lit is not None and ip is not None:
+        # an address literal is an address, however it is spelled
+        # (OpenSSH addr_match_list compares numerically)
+        return lit == ip
     return any(n and wild(pat, n) for n in names)
+
+
+def noncanon(rng, addr):
+    """Another spelling of the same IPv6 address"""
+
+    if ':' not in addr:
+        return addr
+    a = ipaddress.ip_address(addr)
+    return rng.choice([addr.upper(), a.exploded, a.exploded.upper(),
+                       a.compressed.replace(':db8', ':0db8'),
+                       a.compressed.replace('::', ':0:0:', 1)
+                       if a.compressed.count(':') <= 4 and
+                       _ip(a.compressed.replace('::', ':0:0:', 1)) == a
+                       else a.exploded])
 
 
 def list_match(pats, names, ip):
@@ -763,6 +782,8 @@ def gen_from(rng):
             p = cidr_of(rng, rng.choice(ADDRS))
         elif r < 0.6:
             p = rng.choice(HOSTS + ADDRS)
+            if ':' in p and rng.random() < 0.5:
+                p = noncanon(rng, p)
         else:
             p = wildify(rng, rng.choice(HOSTS + ADDRS))
         if rng.random() < 0.25:
